@@ -99,6 +99,8 @@ class Exec(MonitorMixin, DictMixin, StmtMixin, CallMixin, BuiltinMixin, ExprMixi
         decos = self.mod.decorators(fn)
         if any("lru_cache" in d for d in decos) and not c.pure:
             raise Unsupported("@lru_cache on a function whose contract is not declared pure")
+        if c.pure:
+            self.check_pure(fn)
         body = self.body_of(fn)
         n_returns = 0
         for st in self.entry_states(fn):
@@ -106,7 +108,7 @@ class Exec(MonitorMixin, DictMixin, StmtMixin, CallMixin, BuiltinMixin, ExprMixi
                 st.assume(self.spec_bool(r, {}, st))
             st.old = st.snapshot()
             if c.cover:
-                self.obligs.append(Oblig(f"{c.qual}::cover.requires", "cover", c.qual, fn.lineno, list(st.pc), z3.BoolVal(True), "precondition is satisfiable", 0, list(c.serves), True))
+                self.obligs.append(Oblig(f"{c.qual}::cover.requires", "cover", c.qual, fn.lineno, list(self.global_facts) + list(st.pc), z3.BoolVal(True), "precondition is satisfiable", 0, list(c.serves), True))
             for sig, s in self.exec_block(body, st):
                 self.path_counter += 1
                 if sig[0] in ("next", "return"):
@@ -123,9 +125,33 @@ class Exec(MonitorMixin, DictMixin, StmtMixin, CallMixin, BuiltinMixin, ExprMixi
             raise Unsupported("no normal return path found")
         return self.obligs
 
+    def check_pure(self, fn):
+        """syntactic purity (needed for @lru_cache transparency): no global/nonlocal, no store through a
+        parameter or a module-level name"""
+        params = {a.arg for a in fn.args.posonlyargs + fn.args.args + fn.args.kwonlyargs}
+        local = set()
+        for n in ast.walk(fn):
+            if isinstance(n, ast.Name) and isinstance(n.ctx, ast.Store):
+                local.add(n.id)
+        for n in ast.walk(fn):
+            if isinstance(n, (ast.Global, ast.Nonlocal)):
+                raise Unsupported("pure contract: global/nonlocal statement")
+            if isinstance(n, (ast.Attribute, ast.Subscript)) and isinstance(n.ctx, (ast.Store, ast.Del)):
+                root = n
+                while isinstance(root, (ast.Attribute, ast.Subscript)):
+                    root = root.value
+                if not (isinstance(root, ast.Name) and root.id in local and root.id not in params):
+                    self.oblige(State(), z3.BoolVal(False), "pure", f"store through non-local {ast.unparse(n)[:40]} in a pure function", name=f"{self.c.qual}::pure")
+        self.oblige(State(), z3.BoolVal(True), "pure", "no store to non-local state", name=f"{self.c.qual}::pure")
+
     def check_post(self, val, st: State):
         c = self.c
         env = {"result": val}
+        if st.old is not None:
+            # parameter names in postconditions denote the values / references passed in
+            for p_ in c.params:
+                if p_ in st.old.env:
+                    env[p_] = st.old.env[p_]
         for k, h in enumerate(c.hints):
             g = self.spec_bool(h, env, st)
             self.oblige(st, g, "hint", f"hint {h}", name=f"{c.qual}::hint[{k}]")
@@ -133,7 +159,7 @@ class Exec(MonitorMixin, DictMixin, StmtMixin, CallMixin, BuiltinMixin, ExprMixi
             g = self.spec_bool(e, env, st)
             self.oblige(st, g, "ensures", e, name=f"{c.qual}::ensures[{k}]")
         if c.cover:
-            self.obligs.append(Oblig(f"{c.qual}::cover.return", "cover", c.qual, self.cur_line, list(st.pc), z3.BoolVal(True), "some normal return is reachable", self.path_counter, list(c.serves), True))
+            self.obligs.append(Oblig(f"{c.qual}::cover.return", "cover", c.qual, self.cur_line, list(self.global_facts) + list(st.pc), z3.BoolVal(True), "some normal return is reachable", self.path_counter, list(c.serves), True))
 
     def check_raise(self, exc: Exc, st: State):
         c = self.c
@@ -149,8 +175,13 @@ class Exec(MonitorMixin, DictMixin, StmtMixin, CallMixin, BuiltinMixin, ExprMixi
             g = self.spec_bool(cond, {}, st.old.copy()) if st.old is not None else z3.BoolVal(True)
             # evaluated on the pre-state
             self.oblige(st, g, "raises", f"{exc.name} only when {cond}", name=f"{c.qual}::raises.{allowed[0]}.when")
+        env = {}
+        if st.old is not None:
+            for p_ in c.params:
+                if p_ in st.old.env:
+                    env[p_] = st.old.env[p_]
         for k, e in enumerate(c.ensures_raise.get(allowed[0], [])):
-            g = self.spec_bool(e, {}, st)
+            g = self.spec_bool(e, env, st)
             self.oblige(st, g, "ensures_raise", e, name=f"{c.qual}::ensures_raise.{allowed[0]}[{k}]")
 
 
